@@ -7,6 +7,7 @@ package mockq
 
 import (
 	"context"
+	"encoding/hex"
 	"fmt"
 	"regexp"
 	"sort"
@@ -33,7 +34,12 @@ type Rec struct {
 	TS     int64  `json:"ts"` // nanoseconds
 	Line   string `json:"line"`
 	Labels []KV   `json:"labels,omitempty"` // resource attributes (stream labels)
+	// Trace, Span: trace id (32 hex digits) and span id (16 hex digits) of the record; "" = none.
+	Trace string `json:"trace,omitempty"`
+	Span  string `json:"span,omitempty"`
 }
+
+func allZero(hexDigits string) bool { return strings.Trim(hexDigits, "0") == "" }
 
 // Call records one SelectLogs call.
 type Call struct {
@@ -77,6 +83,13 @@ func (q *Querier) Capabilities() logqlengine.QuerierCapabilities { return q.Caps
 // InitialLabels is the specification of a record's initial label set (msg + attributes).
 func InitialLabels(r Rec) map[string]string {
 	m := map[string]string{}
+	// an id that is set (not all zero) is a label, in lower-case hex
+	if r.Trace != "" && !allZero(r.Trace) {
+		m["trace_id"] = strings.ToLower(r.Trace)
+	}
+	if r.Span != "" && !allZero(r.Span) {
+		m["span_id"] = strings.ToLower(r.Span)
+	}
 	if r.Line != "" {
 		m["msg"] = r.Line
 	}
@@ -173,7 +186,17 @@ func (q *Querier) SelectLogs(_ context.Context, start, end otelstorage.Timestamp
 			}
 			shared[skey] = attrs
 		}
+		var tid otelstorage.TraceID
+		var sid otelstorage.SpanID
+		if _, err := hex.Decode(tid[:], []byte(r.Trace)); err != nil || (r.Trace != "" && len(r.Trace) != 32) {
+			panic("mockq: bad trace id " + r.Trace)
+		}
+		if _, err := hex.Decode(sid[:], []byte(r.Span)); err != nil || (r.Span != "" && len(r.Span) != 16) {
+			panic("mockq: bad span id " + r.Span)
+		}
 		out = append(out, logstorage.Record{
+			TraceID:           tid,
+			SpanID:            sid,
 			Timestamp:         otelstorage.Timestamp(r.TS),
 			ObservedTimestamp: otelstorage.Timestamp(r.TS),
 			Body:              r.Line,
